@@ -384,7 +384,7 @@ def run(tier: str) -> int:
               "non-constant *_hh columns, vs the Lean model (exact cells, error class); search: valid populations with one "
               "fault of every enumerated class at a random eligible position must raise; lossless dtype variants must leave "
               "all default targets unchanged and be announced by the conversion warning. distinct = distinct tables / (population, fault).")
-    common.build_and_audit(r, ["C20", "C20Sim"], leanchecker=not quick)
+    common.build_and_audit(r, ["C20", "C20Sim", "C20Bridge"], leanchecker=not quick)
     rnd = common.rng("C20")
     conversion_correspondence(r, rnd, 300 if quick else 6000)
     table_correspondence(r, rnd, 150 if quick else 3000)
